@@ -34,7 +34,7 @@ CLAIMS["C04"] = {
   "technique": "Coq proof (refinement of both templates to one spec) + AST translator + differential correspondence",
   "design_ref": "DESIGN.md 4/C04"}
 CLAIMS["C10"] = {
-  "text": "Theorems of Props/C10.v over the class templates: C10_forbid_adds_only_the_extra_key_check (enabling the flag changes the specification both templates refine in exactly one way: payloads with a key outside the accepted key set -- computed after renames/aliases -- are rejected), C10_fast/detailed_error_names_exactly_the_extras (the error carries the class and exactly the unknown keys; in detailed mode as the last member of the class group), C10_extras_inert (flag off: extending a dict payload with keys outside the accepted set cannot change the outcome). All classes, option/override combinations, handlers and payloads; no bound. Tie: T1 + TPL lane with extra keys incl. original names of renamed attributes. Nesting depth, NamedTuple-from-dict, TypedDict and the tagged-union tag key are decided by direct oracles on the implementation; known finding F4 (TypedDict keeps unknown keys) is reported as KNOWN-FINDING.",
+  "text": "Theorems of Props/C10.v over the class templates: C10_forbid_adds_only_the_extra_key_check (enabling the flag changes the specification both templates refine in exactly one way: payloads with a key outside the accepted key set -- computed after renames/aliases -- are rejected), C10_fast/detailed_error_names_exactly_the_extras (the error carries the class and exactly the unknown keys; in detailed mode as the last member of the class group), C10_extras_inert (flag off: extending a dict payload with keys outside the accepted set cannot change the outcome). All classes, option/override combinations, handlers and payloads; no bound. Tie: T1 + TPL lane with extra keys incl. original names of renamed attributes. Nesting depth, NamedTuple-from-dict and TypedDict are decided by direct oracles on the implementation; \"the tag key of a tagged union is not an extra\" by the tagged-union battery check_c10_tagged (a member's own dict + the tag, known / unknown / missing, + a known set of extra keys, at top level, inside List[U] and inside a class attribute: accepted iff no extras, and the error names exactly the extras, never the tag); known finding F4 (TypedDict keeps unknown keys) is reported as KNOWN-FINDING.",
   "note": TB_TPL + " TypedDict templates are not modelled yet: that part of the statement is checked by the oracle only.",
   "technique": "Coq proof over executable class-template model + AST translator + differential correspondence + direct oracle",
   "design_ref": "DESIGN.md 4/C10"}
@@ -112,12 +112,12 @@ CLAIMS["C01"] = {
   "text": "Theorem C01_roundtrip (Props/C01.v) over the nested executable model Model/Conv.v: for EVERY environment of classes and enums, every type expression of the modelled universe "
           "(Any, primitives, enums, literals, lists/sequences, homogeneous and heterogeneous tuples, sets, frozensets, mappings, Optional, classes incl. recursive ones, NewType, Annotated; "
           "arbitrary nesting), EVERY value x of that type (rt_value: exact classes at every depth, Any positions hold None/atoms, hashable leaf types for set elements and mapping keys, every "
-          "attribute set), the unstructuring Converter in either validation mode and the structuring converter of EITHER class in EITHER mode (so also Converter -> BaseConverter): if unstructure "
+          "attribute set), the unstructuring Converter in either validation mode and the structuring converter of EITHER class in EITHER mode (so also Converter -> BaseConverter), under EITHER unstructure strategy (dict, or tuple with kw_only attributes passed back by keyword -- T1 flag + obligation src_tuple_passes_kw_only_by_keyword): if unstructure "
           "returns u then structure returns x itself (Leibniz equality: equal and of the same classes at every depth); C01_roundtrip_total: such a u exists. Same-fuel form, induction on the fuel; the class case is the class-level "
-          "theorems C01_class_unstructure / C01_class_structure_back (both unstructure templates emit every attribute in order; the detailed, fast and -- via C06 -- interpretive templates give "
-          "back the same instance), proved for any payload value type. Tie: T1 (template flags) + CONV lane (model = implementation on every generated case, all 8 configurations incl. tuple "
-          "strategy and the BaseConverter unstructuring side, which have no theorem) + the literal round-trip oracle on the implementation across converter classes.",
-  "note": TB_CONV + " Theorem limited to: dict strategy, forbid_extra_keys off, Converter on the unstructuring side, classes whose attributes are all __init__ arguments without field converters; "
+          "theorems C01_class_unstructure / C01_class_structure_back (both unstructure templates emit every attribute in order; the detailed, fast, interpretive-dict and interpretive-tuple templates give "
+          "back the same instance), proved for any payload value type. Tie: T1 (template flags) + CONV lane (model = implementation on every generated case, all 8 configurations incl. the BaseConverter unstructuring side, which has no theorem) + the literal round-trip oracle on the implementation across converter classes + the CYCLE battery (oracle only): families of mutually recursive attrs / dataclass / NamedTuple / TypedDict classes, hooks generated from a random entry point of the cycle."
+          "",
+  "note": TB_CONV + " Theorem limited to: forbid_extra_keys off, Converter on the unstructuring side, both sides of the round trip using the same strategy, classes whose attributes are all __init__ arguments without field converters; "
           "totality is C01_roundtrip_total (for every value of the type there is an amount of fuel, linear in its size, for which unstructure returns and structure gives the value back). TypedDict / NamedTuple / unions / generics inside nested types: "
           "lane and oracle of their own properties only. Known findings touching C01: F27 (tuple strategy with kw_only / init=False attributes), F10 (BaseConverter with init=False attributes).",
   "technique": "Coq proof (same-fuel induction over an executable nested model; Leibniz round trip of the class templates) + AST translator + differential correspondence + direct oracle",
@@ -127,11 +127,10 @@ CLAIMS["C03"] = {
   "text": "Theorem C03_output_is_primitive (Props/C03.v) over the nested executable model: for EVERY environment (enum values primitive), type expression of the modelled universe and value x of "
           "that type (uval: the announced container kinds and classes, environment classes at every depth -- also at Any-typed / untyped positions, encoded by runtime class), the Converter under the dict AND "
           "the tuple strategy: whatever unstructure returns is built only from dict, list, tuple, set, frozenset, None and atoms -- no instance, no enum member at any depth. Induction on the fuel; the class "
-          "case is C03_class_values_generated / _interpretive (every value a class hook emits is what the attribute's handler returned), for any options and overrides. That the output EQUALS the "
-          "documented encoding, and everything about BaseConverter, is decided by the CONV lane (model = implementation) plus an independent Python encoder written from the documentation (classes -> dicts "
+          "case is C03_class_values_generated / _interpretive (every value a class hook emits is what the attribute's handler returned), for any options and overrides. C03_equals_documented_encoding: the documentation written down as an inductive relation `encodes` (Model/ConvEnc.v: no fuel, no hooks, no templates) and, for every value of the type (rt_value), both strategies: what unstructure returns is related to (T, x) by `encodes` at every depth. Everything about BaseConverter is decided by the CONV lane (model = implementation) plus an independent Python encoder written from the documentation (classes -> dicts "
           "by field name / tuples in field order, enums -> values, sequences -> lists, hetero tuples -> tuples, sets -> sets, mappings -> dicts with unstructured keys, wrappers -> underlying, "
-          "Any/untyped -> runtime class) compared on every case: partial in that respect.",
-  "note": TB_CONV + " No theorem for: BaseConverter (its collections dispatch on the runtime class of the elements), the equality with the encoding, Path, protocols, union-typed positions, "
+          "Any/untyped -> runtime class) compared on every case, plus the CYCLE battery for mutually recursive families incl. NamedTuples and TypedDicts (oracle only).",
+  "note": TB_CONV + " No theorem for: BaseConverter (its collections dispatch on the runtime class of the elements), Path, protocols, union-typed positions, "
           "dict_factory / unstruct_collection_overrides settings (not modelled). BaseConverter has no unstructure hook for NewType / Annotated / heterogeneous tuples (the fallback returns the value unchanged): "
           "treated as outside BaseConverter's documented support, not generated for its oracle.",
   "technique": "Coq proof (induction on fuel over an executable nested model; class-level value provenance) + differential correspondence + independent encoder oracle",
